@@ -63,7 +63,8 @@ def make_prim(it, kind):
     return o
 
 
-def run(ctx):
+def run(ctx, events=None):
+    """events: restrict to these rows of the table (C12 re-generates the Evt19 row)"""
     T = spec_table()
     it = ctx.build(by_contract=PDU_ENCODERS + ['fsm.DIMSEDecoder.process'])
     fsm = it.modules['pynetdicom2.fsm']
@@ -88,7 +89,7 @@ def run(ctx):
     ctx.extra['action_methods_under_contract'] = list(infos.values())
 
     cells_defined = 0
-    for evt in range(1, 20):
+    for evt in (range(1, 20) if events is None else events):
         for sta in range(1, 14):
             cell = T.CELLS.get((evt, sta))
             cells_defined += 1 if cell else 0
@@ -103,8 +104,9 @@ def run(ctx):
                             one_cell(ctx, it, T, p, evt, sta, role, timer_running, kind, cell, label,
                                      sta_val, evt_val, sock_cls)
                         ctx.add_exploration(label, run_cell, res)
-    ctx.extra['cells'] = {'total': 247, 'defined_by_standard': cells_defined, 'exhaustive': True}
-    ctx.extra['exhaustive'] = True
+    if events is None:
+        ctx.extra['cells'] = {'total': 247, 'defined_by_standard': cells_defined, 'exhaustive': True}
+        ctx.extra['exhaustive'] = True
     ctx.assumptions += [
         'transport pre-state per cell = provider-loop invariant Inv (idle => no socket; Evt17 only after the '
         'socket was closed and dropped; socket open otherwise) -- proved separately under C05',
@@ -126,7 +128,7 @@ def run(ctx):
                                             'channel': m.group(6)})
     ctx.replayers['fsm.StateMachine.action*'] = replayer
 
-    if ctx.tier == 'thorough':
+    if ctx.tier == 'thorough' and events is None:
         from .. import replay
         r = replay.run_native('c04.py', {'all': True}, timeout=900)
         ok = 'error' not in r and not r.get('reproduced')
